@@ -82,7 +82,7 @@ func genDirCase(t *rapid.T) *DirCase {
 	n := rapid.IntRange(1, ev.Pick(10, 12)).Draw(t, "nEntries")
 	used := map[string]bool{}
 	for i := 0; i < n; i++ {
-		kind := rapid.SampledFrom([]string{"annotated", "annotated", "annotated", "plain", "unexpected", "unexpected", "broken", "broken", "nongo", "subdir", "nongo-valid"}).Draw(t, "entryKind")
+		kind := rapid.SampledFrom([]string{"annotated", "annotated", "annotated", "plain", "unexpected", "unexpected", "broken", "broken", "nongo", "subdir", "nongo-valid", "dotfile"}).Draw(t, "entryKind")
 		prefix := rapid.SampledFrom([]string{"a", "m", "z", "0", "B"}).Draw(t, "sortPrefix") // bad files sort before, between and after good ones
 		name := fmt.Sprintf("%s%d_%s", prefix, i, kind)
 		e := DirEntry{Kind: kind}
@@ -115,6 +115,11 @@ func genDirCase(t *rapid.T) *DirCase {
 		case "nongo":
 			e.Name = name + rapid.SampledFrom([]string{".txt", ".proto", ".go.bak", ".gox", "", ".GO"}).Draw(t, "ext")
 			e.Text = "message Man {\n  string name = 1; // 姓名 @tag valid:\"required,to=1~3\"\n}\ntype X struct {\n\tA int `json:\"a\"` // @tag valid:\"x\"\n}\n"
+		case "dotfile":
+			// hidden regular files (they sort before everything else) and hidden Go files
+			e.Kind = "nongo"
+			e.Name = rapid.SampledFrom([]string{".gitkeep", ".DS_Store", ".gitignore", ".#lock", "._x.pb.go.swp"}).Draw(t, "dotName")
+			e.Text = "*.tmp\n"
 		case "nongo-valid":
 			// a perfectly valid annotated Go source under a name that does not end in .go
 			e.Name = name + rapid.SampledFrom([]string{".pb.go.bak", ".pb.tmpl", ".pb.go~", ".go.orig", "", ".pb.GO"}).Draw(t, "ext")
